@@ -143,6 +143,15 @@ def apply(c):
           "v => CLASS::try_from(v).map(|x: CLASS| -> (r: QCLASS) ensures r == QCLASS::CLASS(x) { x.into() }),")
     c.log.append(('closure-contract', 'dns/mod.rs', 'QCLASS::try_from: |x| x.into() gets `ensures r == QCLASS::CLASS(x)`'))
     c.sub('dns/rdata/macros.rs', '            fn from(value: TYPE) -> Self {', '            #[verifier::external_body]\n            fn from(value: TYPE) -> Self {')
+    # Verus limitation (measured, see DESIGN.md "Changes"): as soon as any spec function refers statically to
+    # Question::wf_dec / ResourceRecord::wf_dec (needed for the C05 section chains), the proofs of these seven one-line
+    # conversions lose the axioms of their own *SpecImpl (call-graph cycle through the impl's exec bodies).  They are
+    # therefore assumed in Verus (external_body, contract = the *_spec tables below) and proved -- completely, over all
+    # 65536 codes -- by the loop-free Kani harnesses class_table_all_codes / qclass_table_all_codes / qtype_table_all_codes.
+    for hdr in ["impl From<TYPE> for QTYPE {", "impl TryFrom<u16> for QTYPE {", "impl TryFrom<u16> for CLASS {",
+                "impl From<CLASS> for QCLASS {", "impl TryFrom<u16> for QCLASS {", "impl From<QTYPE> for u16 {", "impl From<QCLASS> for u16 {"]:
+        fn = 'try_from' if 'TryFrom' in hdr else 'from'
+        c.mark('dns/mod.rs', hdr, fn, '#[verifier::external_body]')
     c.append('dns/rdata/mod.rs', spec_tables())
     c.append('dns/mod.rs', MOD_SPECS)
     # rr_wrapper: From<$w> for $t
